@@ -18,14 +18,15 @@ _STATE = {}
 
 
 def prepare(prop, tier, base_seed):
-    if _STATE.get("prepared") == (prop, base_seed):
+    if _STATE.get("prepared") == (prop, base_seed, tier):
         return
     from . import pool as _pool
-    _STATE["pool"] = _pool.build_pool(base_seed)
+    _STATE["pool"] = _pool.build_pool(
+        base_seed, n_sdl=12 if tier == "thorough" else 7)
     if prop == "C12":
         from . import c12
         c12.prepare(_STATE, tier, base_seed)
-    _STATE["prepared"] = (prop, base_seed)
+    _STATE["prepared"] = (prop, base_seed, tier)
 
 
 def _machine(prop):
